@@ -712,7 +712,7 @@ func writeReplay(o RunOpts, idx int, v Violation) string {
 	rec := map[string]any{"property": o.Prop, "tier": o.Tier, "seed": o.Seed, "index": idx, "violation": v,
 		"replay_cmd": fmt.Sprintf("scripts/check.sh %s --replay <this file>", o.Prop)}
 	b, _ := json.MarshalIndent(rec, "", " ")
-	path := filepath.Join(d, fmt.Sprintf("%s-%s.json", v.Kind, HashKey(o.Tier, o.Seed, idx, v.Kind, v.Msg)[:12]))
+	path := filepath.Join(d, fmt.Sprintf("%s-%s.json", v.Kind, HashKey(o.Tier, o.Seed, idx, v.Kind, v.Msg, v.Match)[:12]))
 	path = strings.ReplaceAll(path, " ", "_")
 	os.WriteFile(path, b, 0o644)
 	return path
